@@ -23,7 +23,9 @@ RULE = (
     "reference's (so nothing is used after the fault and the fault is not deferred); aggregations: "
     "no pull/call event after the fault. close-faults-* shards: a source whose own aclose() raises a planned "
     "exception (any of the 7 types) when a tool is closed after j items or ends by itself - that very object "
-    "must reach the consumer. Non-trivial: a fault at a position >= 2 of the merged use list "
+    "must reach the consumer. tee-concurrent: 2-3 tasks advance tee children of one class-based source that tolerates "
+    "overlapping pulls (with or without lock, 1-2 suspensions per pull) whose k-th pull raises (one of 6 types incl. a "
+    "RuntimeError subclass): exactly one consumer receives that object. Non-trivial: a fault at a position >= 2 of the merged use list "
     "(an item was already delivered or another resource was used before). One evaluation = one injected run."
 )
 ASSUMPTIONS = [
@@ -47,7 +49,7 @@ def cases(draw, name, tier):
     if name == "chain_from_iterable":
         case["params"]["outer"]["fl"] = draw(st.sampled_from(["agen", "aclass", "iter", "seq"]))
     for spec in case["fns"].values():
-        spec["fl"] = draw(st.sampled_from(["def", "async", "partial", "obj", "objaw", "falsyobj"]))
+        spec["fl"] = draw(st.sampled_from(["def", "async", "partial", "obj", "objaw", "falsyobj", "gencoro", "unhashobj"]))
     if tier == "quick":
         case["exc"] = draw(st.lists(st.sampled_from(EXC_NAMES), min_size=2, max_size=2, unique=True))
     else:
